@@ -2,6 +2,7 @@ package main
 
 import (
 	"fmt"
+	"go/ast"
 	"go/types"
 	"strings"
 
@@ -119,6 +120,12 @@ func (g *Gen) enterLoop(li *loopInfo, ins []inEdge, fwdPreds []*ssa.BasicBlock) 
 	g.assert(sx(">=", nb, g.ghostTerm(pre, "$brk")))
 	g.cur.ghost["$brk"] = nb
 	for _, gh := range ghosts {
+		if strings.HasPrefix(gh, "$local:") {
+			// a source variable assigned in the loop: at the header it is either one
+			// of the phis (bound below) or has no defined value
+			delete(g.cur.ghost, gh)
+			continue
+		}
 		old := g.ghostTerm(pre, gh)
 		n := g.freshConst("g."+strings.TrimPrefix(gh, "$"), g.ghostSort(gh))
 		switch {
@@ -143,7 +150,18 @@ func (g *Gen) enterLoop(li *loopInfo, ins []inEdge, fwdPreds []*ssa.BasicBlock) 
 		v := &Val{T: c, Ty: phi.Type()}
 		g.vals[phi] = v
 		g.assumeTypeInv(v, g.ghostTerm(g.cur, "$brk"))
+		// structural facts about compiler-generated range counters
+		switch phi.Comment {
+		case "rangeindex":
+			g.assume(sx(">=", c, "(- 1)"))
+		case "rangeint.iter":
+			g.assume(sx(">=", c, "0"))
+		}
 		hdrEnv[names[pi]] = v
+		// the source variable the phi stands for has the phi's value at the header
+		if gn := "$local:" + phi.Comment; g.ghostSorts[gn] != "" && g.ghostSorts[gn] == g.st.sortOf(phi.Type()) {
+			g.cur.ghost[gn] = c
+		}
 	}
 	li.headerEnv = hdrEnv
 	li.headerState = g.cur.clone()
@@ -188,6 +206,9 @@ func (g *Gen) closeLoop(li *loopInfo, q *ssa.BasicBlock, si int) error {
 		}
 	}
 	for gh, t := range st.ghost {
+		if strings.HasPrefix(gh, "$local:") {
+			continue
+		}
 		if !li.ghostSet[gh] && g.ghostTerm(li.headerState, gh) != t {
 			return fmt.Errorf("internal: loop %d body writes ghost %s that is not in its computed write set", li.idx, gh)
 		}
@@ -269,6 +290,16 @@ func (g *Gen) loopMods(li *loopInfo) (comps []string, ghosts []string) {
 		for _, in := range b.Instrs {
 			for _, c := range g.eng.instrWrites(in, g) {
 				cs[c] = true
+			}
+			if dr, ok := in.(*ssa.DebugRef); ok && !dr.IsAddr {
+				// GlobalDebug emits a DebugRef for every reference; the variable
+				// changes in the loop only if it is bound to a value computed inside
+				// the loop (a header phi or a body instruction)
+				if id, ok := dr.Expr.(*ast.Ident); ok && id.Name != "_" {
+					if xi, ok := dr.X.(ssa.Instruction); ok && li.blocks[xi.Block()] {
+						gs["$local:"+id.Name] = true
+					}
+				}
 			}
 			var cc *ssa.CallCommon
 			switch x := in.(type) {
